@@ -101,7 +101,11 @@ async def party_main(world, p, prog, case):
             T = make_sectype(rt, op['type'])
             s_arg, S = norm_set(op['senders'], m)
             mine = op['values'][S.index(pid)] if pid in S else op['dummy']
-            if op['form'] == 'scalar':
+            if op.get('placeholder') and pid not in S:
+                # a non-sender's argument is only a type witness: an unset placeholder is enough (the library's own
+                # SecureFloat._output does this), and nothing may ever wait for it
+                x = T(None) if op['form'] == 'scalar' else [T(None) for _ in mine]
+            elif op['form'] == 'scalar':
                 x = T(mine)
             else:
                 x = [T(v) for v in mine]
@@ -341,6 +345,8 @@ def gen(rng, cfg, tier='quick', n_ops=None):
             if len(set(S)) != len(S):
                 continue
             ops.append({'k': 'input', 'type': td, 'form': form, 'senders': senders, 'values': values, 'dummy': dummy})
+            if td['kind'] != 'fxp' and rng.random() < 0.3:
+                ops[-1]['placeholder'] = True
             inputs.append(len(ops) - 1)
         else:
             src = rng.choice(inputs)
